@@ -87,7 +87,7 @@ let fname p =
   | FLayout -> "L" | FIndex -> "I" | FIndexTmp _ -> "IT" | FLayoutTmp _ -> "LT"
   | FBlob d -> "B" ^ string_of_int (int_of_n d)
   | FIngest (d, _) -> "T" ^ string_of_int (int_of_n d)
-let dname d = match d with DBlobs -> "blobs" | DAlg a -> (if int_of_n a = 0 then "blobs/sha256" else "blobs/sha512") | DIngest -> "ingest"
+let dname d = match d with DBlobs -> "blobs" | DAlg a -> (match int_of_n a with 0 -> "blobs/sha256" | 1 -> "blobs/sha512" | _ -> "blobs/sha384") | DIngest -> "ingest"
 
 let show_step m =
   match m with
@@ -134,7 +134,7 @@ let show_fs blobs ctr (fs : fS) =
     List.map (fun c -> FLayoutTmp (nat_of_int c)) cs @
     List.concat (List.map (fun b -> FBlob (n_of_int b.bid) :: List.map (fun c -> FIngest (n_of_int b.bid, nat_of_int c)) cs) blobs) in
   let ftoks = List.concat (List.map (fun p -> match fs.files p with Some f -> [show_file p f] | None -> []) paths) in
-  let dtoks = List.concat (List.map (fun d -> if fs.dirs d then ["D:" ^ dname d] else []) [DBlobs; DAlg (n_of_int 0); DAlg (n_of_int 1); DIngest]) in
+  let dtoks = List.concat (List.map (fun d -> if fs.dirs d then ["D:" ^ dname d] else []) [DBlobs; DAlg (n_of_int 0); DAlg (n_of_int 1); DAlg (n_of_int 2); DIngest]) in
   String.concat " " (List.sort compare (ftoks @ dtoks))
 
 let show_res r = match r with ROk -> "ok" | RExists -> "exists" | RNotFound -> "notfound" | RMismatch -> "mismatch"
